@@ -185,6 +185,11 @@ char ZCK_PUBLIC_API *zck_get_range_char(zckCtx *zck, zckRange *range) {
         count++;
         ri = ri->next;
     }
+    /* An empty request renders as an empty string */
+    if(loc == 0) {
+        output[0] = '\0';
+        return output;
+    }
     output[loc-1]='\0'; // Remove final comma
     output = zrealloc(output, loc);
     return output;
